@@ -26,9 +26,10 @@ class C09(core.Check):
         'adjacent:prefix', 'adjacent:suffix', 'adjacent:infix', 'chain:2', 'chain:3', 'chain:4', 'diamond', 'cycle:1',
         'cycle:2', 'cycle:3', 'cycle:4', 'use-before-define', 'double:isa+isa', 'double:isa+cli', 'double:isa+define',
         'double:cli+cli', 'double:cli+define', 'double:define+define', 'expands-to:register', 'expands-to:label',
-        'expands-to:expression', 'source:isa', 'source:cli', 'source:define', 'unparenthesised-expression-value', 'double:identical-text']}
+        'expands-to:expression', 'source:isa', 'source:cli', 'source:define', 'unparenthesised-expression-value', 'double:identical-text',
+        'quoted-value-used', 'quoted-value-from:isa', 'quoted-value-from:cli', 'quoted-value-from:define']}
 
-    def build(self, rng, mode):
+    def build(self, rng, mode, quoted=None):
         tags = set()
         bases = list(BASES)
         rng.shuffle(bases)
@@ -123,15 +124,26 @@ class C09(core.Check):
             reg_sym = bases[nsym]
             defs.append((reg_sym, rng.choice(['a', 'b', 'sp']), None))
             tags.add('expands-to:register')
+        # a symbol whose replacement text is a quoted string or a character literal: substituted verbatim, quotes included
+        q_sym = None
+        spare = [b for b in bases[nsym:] if b != reg_sym]
+        if spare and (quoted if quoted is not None else rng.random() < 0.25):
+            q_sym = spare[0]
+            q_kind = rng.choice(['str', 'chr'])
+            q_text = rng.choice(['"ok"', '"a b"', '"x"', "'hi there'"]) if q_kind == 'str' else rng.choice(["'B'", "'7'", "'z'"])
+            defs.append((q_sym, q_text, None))
+            tags.add('expands-to:quoted-' + q_kind)
         # assign sources; definitions made by #define are placed in the program at random points
         body = []
         prog_defs = []
         for nm, txt, _ in defs:
             s = rng.choice(['isa', 'cli', 'define', 'define'])
-            if ' ' in txt and s == 'cli' and rng.random() < 0.5:
+            if ' ' in txt and s == 'cli' and rng.random() < 0.5 and nm != q_sym:
                 s = 'define'
             src_of[nm] = s
             tags.add('source:' + s)
+            if nm == q_sym:
+                tags.add('quoted-value-from:' + s)
             if s == 'isa':
                 isa_syms.append((nm, txt))
             elif s == 'cli':
@@ -190,7 +202,7 @@ class C09(core.Check):
             for _ in range(rng.randrange(1, 4)):
                 r = rng.random()
                 if r < 0.5 and all_names:
-                    cand = [n for n in all_names if n != reg_sym]
+                    cand = [n for n in all_names if n != reg_sym and n != q_sym]
                     if cand:
                         atoms.append(rng.choice(cand))
                         continue
@@ -208,6 +220,21 @@ class C09(core.Check):
                 out.append(line)
                 probes.append({'line': len(out), 'text': line, 'addr': cur_addr, 'bytes': exp, 'kind': 'inr'})
                 cur_addr += 1
+                continue
+            if q_sym and q_sym in table and table[q_sym][:1] in ('"', "'") and rng.random() < 0.4:
+                qt = table[q_sym]
+                if qt.startswith('"') or len(qt) > 3:
+                    line = f'.cstr {q_sym}'
+                    b = qt[1:-1].encode() + b'\0'
+                else:
+                    k_ = rng.randrange(0, 3)
+                    # (a line that begins with a character literal is C11's listed finding: keep the literal second)
+                    line = f'.byte {k_} + {q_sym}'
+                    b = bytes([ord(qt[1]) + k_])
+                out.append(line)
+                probes.append({'line': len(out), 'text': line, 'addr': cur_addr, 'bytes': b.hex(), 'kind': 'quoted'})
+                cur_addr += len(b)
+                tags.add('quoted-value-used')
                 continue
             line = f'{kind} {text}'
             out.append(line)
@@ -255,7 +282,7 @@ class C09(core.Check):
         for i in range(n_pre + n):
             rng = core.rng_for(0 if i < n_pre else seed, self.pid, i)
             mode = ['plain', 'plain', 'cycle', 'double'][i % 4] if i < n_pre else rng.choice(['plain', 'plain', 'plain', 'cycle', 'double'])
-            c = self.build(rng, mode)
+            c = self.build(rng, mode, quoted=(i % 3 == 0) if i < n_pre else None)
             if c:
                 yield c
 
